@@ -1,8 +1,12 @@
+import os
+
+from .. import core
 from ..chanprop import ChanSpec
 
 
 class C01(ChanSpec):
     id = "C01"
+    gen_targets = ("routing",)
     design_ref = "DESIGN.md §6 C01 (Chan LTS)"
     technique = "Lean 4 proof (inductive 23-conjunct invariant of the channel write-path LTS: FIFO accepted = wire ++ batch ++ queue, for unboundedly many writers) with step-by-step monitoring of the real instrumented channel under a deterministic schedule controller"
     level_text = ("Lean 4 theorems over the Chan LTS (one action per synchronisation step of channel.go: queue send/recv, CAS/load/store of the ownership flag, len(queue), transport calls, "
@@ -21,4 +25,28 @@ class C01(ChanSpec):
     modelled_not_verified = ("Go channel / atomic / sync.Mutex semantics", "utils/pool (C19)", "executor (any executor that runs submitted actions)")
 
 
-SPEC = C01()
+
+
+class C01Full(C01):
+    """C01 proper: the channel part plus the transport wrappers between channel and connection"""
+
+    def harness(self, seed, count, tier):
+        lines = super().harness(seed, count, tier)
+        rc, so, se = core.run([os.path.join(core.BIN, "nvh"), "-prop", "C17", "-seed", str(seed), "-count", str(300 if tier == "quick" else 6000)], timeout=1800)
+        lines += [l for l in so.split("\n") if l]
+        if rc != 0:
+            lines.append("C17 crash harness-exit-%d" % rc)
+        return lines
+
+    def nontrivial(self, line, answer):
+        t = line.split()
+        return t[1] == "end" or (t[0] == "C17" and t[1] in ("write", "writev") and t[2] != "-")
+
+    def extra_coverage(self, pairs):
+        chan = [(l, a) for l, a in pairs if not l.startswith("C17 ")]
+        cov = super().extra_coverage(chan)
+        cov["wrapper_operations_compared"] = sum(1 for l, a in pairs if l.startswith("C17 "))
+        return cov
+
+
+SPEC = C01Full()
